@@ -1042,6 +1042,15 @@ impl Rt {
         // be accessible from Roto.
         for field in &description.fields {
             self.find_type(field.type_id, field.type_name)?;
+
+            // The type registry is shared by all runtimes, so the type
+            // must also have been registered with this runtime.
+            if self.get_runtime_type(field.type_id).is_none() {
+                return Err(format!(
+                    "Type `{}` of context field `{}` has not been registered with this runtime",
+                    field.type_name, field.name,
+                ));
+            }
         }
 
         self.context = Some(description);
